@@ -8,7 +8,8 @@ Correspondence: dag.GetDescendants/GetAncestors/GetDependencies/GetDependants of
 Oracle (no model): (1) every returned list is exactly the reachable set, each node once (python BFS);
                (2) cost proxy on the real code, no hooks: runtime.MemStats.Mallocs delta (and CPU time, recorded only)
                around one in-process call on a ladder of depth d and d+4 and on a chain with the same node count:
-               growth ladder(d+4)/ladder(d) must be < 4 (linear: ~1.4, path enumeration: 16) and ladder/chain < 20;
+               growth ladder(d+4)/ladder(d) must be < 4 (linear: ~1.4, path enumeration: 16) and ladder/chain < 20
+               (ratios are applied only when the deeper ladder needs >= 3000 allocations; current code: < 400);
                (3) one in-process call on a 100-level ladder within 20 s; (4) CLI: build, build with a failing bottom
                target (failure propagation), deps -t, rdeps -t, list, changes --dependents=transitive on a 200-target
                ladder, each within 30 s (normal: < 2 s; path enumeration: 2^99 steps).
@@ -40,12 +41,14 @@ OBLIGATIONS = [
     "Grog.C19.visited_nodup",
 ]
 ASSUMPTIONS = [
-    "cost of the real code is observed through allocation counts / wall time only (no hooks); thresholds: growth < 4, ladder/chain < 20, absolute bounds 20 s / 30 s",
+    "cost of the real code is observed through allocation counts / wall time only (no hooks); thresholds: growth < 4, ladder/chain < 20 (applied when the deeper ladder needs >= 3000 allocations), absolute bounds 20 s / 30 s",
     "the cost unit of the model is one loop iteration or one recursive call of the Go traversal",
 ]
 
 GROWTH_MAX = 4.0
 LADDER_CHAIN_MAX = 20.0
+MALLOC_FLOOR = 3000      # ratios of small counts are noise: a violation also needs this many allocations on the deeper ladder
+                         # (measured at depth 14: current code 13..360, path enumeration 24 000..100 000)
 D0 = 10
 BIG_DEPTH = 100
 CLI_BOUND = 30.0
@@ -76,6 +79,14 @@ def run(ctx):
     for n, es in cases:
         qs = [{"k": k, "v": v} for v in range(n) for k in ("desc", "anc", "deps", "rdeps")]
         reqs.append(trav_req(n, es, qs))
+    # boundary sizes: fan-out / fan-in / depth around powers of two (few queries each: the model's visited list is quadratic)
+    nb = 0
+    for size in (G.BOUNDARY_SIZES if not quick else G.BOUNDARY_SIZES[:9] + [1025]):
+        for n, es in (G.star(size, True), G.star(size, False), G.chain(size)):
+            qs = [{"k": k, "v": v} for v in (0, 1, n // 2, n - 1) for k in ("desc", "anc", "deps", "rdeps")]
+            reqs.append(trav_req(n, es, qs))
+            nb += 1
+    cov["boundary_graphs"] = nb
     impl = ctx.impl(reqs)
     if impl is None:
         return
@@ -145,7 +156,7 @@ def run(ctx):
         table[what] = {"mallocs_ladder_d": l0["mallocs"], "mallocs_ladder_d+4": l1["mallocs"], "mallocs_chain": c1["mallocs"],
                        "growth": round(growth, 2), "ladder_over_chain": round(ratio, 2),
                        "ns_ladder_d": l0["ns"], "ns_ladder_d+4": l1["ns"], "ns_chain": c1["ns"]}
-        if growth >= GROWTH_MAX or ratio >= LADDER_CHAIN_MAX:
+        if (growth >= GROWTH_MAX or ratio >= LADDER_CHAIN_MAX) and l1["mallocs"] >= MALLOC_FLOOR:
             growth_failed = True
             fn = {"desc": "GetDescendants", "anc": "GetAncestors", "select": "SelectTargetsForBuild", "conflicts": "analysis.BuildGraph (output-conflict detection)"}[what]
             ctx.violation(f"{fn}: cost on the width-2 ladder grows with the number of paths (x{growth:.1f} for 4 more levels; "
